@@ -143,6 +143,11 @@ static int nev_compile(const char * input, program * prog, int type)
 {
     int ret = 0;
 
+    /* diagnostics of the scanner set-up (e.g. a file that cannot be opened) belong to this
+       compilation: line 1, this program's message buffer */
+    set_line_no(1);
+    set_msg_buffer(&prog->msg_count, &prog->msg_array_size, &prog->msg_array);
+
     if (type == PARSE_STR)
     {
         ret = scan_string(input);
